@@ -22,7 +22,9 @@ use tokio::time::timeout as tokio_timeout;
 
 use super::parse_bool_option;
 
-const MAX_DEALER_SEND_BUFFER_PARTS: usize = 10240;
+// A FrameBatch holds at most 255 frames: the buffered parts, the final frame and the
+// automatic delimiter must all fit, otherwise pushing into it panics.
+const MAX_DEALER_SEND_BUFFER_PARTS: usize = 253;
 
 #[derive(Debug)]
 enum DealerSendTransaction {
